@@ -89,6 +89,9 @@ def parseOp (ts : List String) : Option Op :=
   | ["rf", n] => do pure (.removeFire (← n.toNat?))
   | ["al", n, a, b] => do pure (.addLeak (← n.toNat?) (← boolP a) (← boolP b))
   | ["rlk", n] => do pure (.removeLeak (← n.toNat?))
+  | ["ssn", n, nd] => do pure (.setSourceNode (← n.toNat?) (← nd.toNat?))
+  | ["ssp", l, p, "O"] => do pure (.setSpeedPattern (← l.toNat?) (← optP p))     -- the Pattern object instead of its name
+  | ["shp", n, p, "O"] => do pure (.setHeadPattern (← n.toNat?) (← optP p))
   | ["at", n, c] => do pure (.addTank (← n.toNat?) (← optP c))
   | ["ar", n, p] => do pure (.addReservoir (← n.toNat?) (← optP p))
   | ["ap", n, a, b] => do pure (.addPipe (← n.toNat?) (← a.toNat?) (← b.toNat?))
@@ -207,12 +210,22 @@ def handle (st : Variant × Reg) (line : String) : (Variant × Reg) × String :=
   match ts with
   | ["reset", "coded"] => ((coded, init), "ready")
   | ["reset", "repaired"] => ((repaired, init), "ready")
+  | ["reset", "round1"] => ((round1, init), "ready")
+  | ["reset", "round3"] => ((round3, init), "ready")
   | ["snap"] => (st, snapS st.2)
   | ["inv"] => (st, invS st.2)
   | "check" :: _ =>
     match parseSnap ((line.drop 6).toString) with
     | none => (st, "bad-snapshot")
     | some (s, w) => (st, invS s ++ (if viewsOk s w then " views:ok" else " views:bad"))
+  | ["sdp", n, i, p] =>   -- raw: demand_timeseries_list[i].pattern_name = p (outside `Op`)
+    match n.toNat?, i.toNat?, optP p with
+    | some n, some i, some p => let (s', o) := setDemandPatternRaw st.2 n i p; ((st.1, s'), outS o)
+    | _, _, _ => (st, "bad-op")
+  | ["ssrcp", n, p] =>    -- raw: source.strength_timeseries.pattern_name = p
+    match n.toNat?, optP p with
+    | some n, some p => let (s', o) := setSourcePatternRaw st.2 n p; ((st.1, s'), outS o)
+    | _, _ => (st, "bad-op")
   | _ =>
     match parseOp ts with
     | none => (st, "bad-op")
